@@ -1500,7 +1500,7 @@ class Executor:
                 # NOTE: a transposed view is modelled as a value (reads only)
                 return [(st, SArr((v.shape[1], v.shape[0]),
                                   lambda idx, f=snap(v): f((idx[1], idx[0])), v.kind))]
-            if attr in ('sum', 'any', 'all', 'copy', 'astype', 'min', 'max', 'ravel', 'swapaxes'):
+            if attr in ('sum', 'any', 'all', 'copy', 'astype', 'min', 'max', 'ravel', 'swapaxes', 'nonzero'):
                 return [(st, ('arrmethod', v, attr))]
         if isinstance(v, SSeq):
             if attr == 'size':
